@@ -38,6 +38,7 @@ type CaseC struct {
 	Classes []string            `json:"classes"`
 	Mut     Mutation            `json:"mut"`
 	Pad     *Pad                `json:"pad,omitempty"` // comment / blank-line padding up to a file-size class
+	Via     *Delivery           `json:"via,omitempty"` // delivery class: the kind of path the loader is given (nil = regular file)
 }
 
 type wrongExpr struct{ detail, expr string }
@@ -472,6 +473,7 @@ func genC(t *rapid.T) CaseC {
 	if padWanted(t) {
 		c.Pad = choosePad(t, rapid.SampledFrom(padKindsComment).Draw(t, "padkind"), src, tops, st.NL)
 	}
+	c.Via = genDelivery(t)
 	return c
 }
 
@@ -505,7 +507,8 @@ func checkC(c CaseC) *core.Violation {
 			shift(&m.AltTo)
 		}
 	}
-	_, err := loadProfile(text)
+	id += viaSig(c.Via)
+	_, err, path := loadProfileVia(text, c.Via)
 	if err == nil {
 		return core.V("accepted|"+id, "profile with fault %s at %s (lines %d-%d) was loaded without an error\n--- profile ---\n%s", id, m.Target, m.LineFrom, m.LineTo, c.Src)
 	}
@@ -513,7 +516,6 @@ func checkC(c CaseC) *core.Violation {
 	if !errors.As(err, &diags) {
 		return core.V("error-not-diagnostics|"+m.Kind, "error of type %T carries no diagnostics: %v", err, err)
 	}
-	path := profilePath()
 	overlaps := func(r *hcl.Range) bool {
 		if r == nil || r.Filename != path || r.Start.Line < 1 || r.End.Line < r.Start.Line {
 			return false
@@ -599,6 +601,7 @@ func classifyC(c CaseC) core.Class {
 	depth := strings.Count(c.Mut.Target, ".")
 	cl.Labels = append(cl.Labels, fmt.Sprintf("depth:%d", depth))
 	cl.Labels = append(cl.Labels, padLabels(c.Pad, len(c.Src))...)
+	cl.Labels = append(cl.Labels, viaLabels(c.Via)...)
 	cl.Fingerprint = fmt.Sprintf("%s|%s|depth=%d", c.Mut.Kind, c.Mut.Detail, depth)
 	if c.Mut.Layout != "" {
 		cl.Fingerprint = fmt.Sprintf("%s|%s|%s", c.Mut.Kind, c.Mut.Detail, c.Mut.Layout)
@@ -612,7 +615,7 @@ func classifyC(c CaseC) core.Class {
 func TestC14c(t *testing.T) {
 	core.Run(t, core.Spec[CaseC]{
 		Property: "C14", Sub: "c",
-		Rule: "a valid generated profile (as in sub-check a, any spelling) with exactly one fault: a required attribute dropped; a block the schema allows once written twice (full or empty copy, before/after/at the end); an attribute or block the enclosing body does not define (foreign names, case variants of defined ones) added to any body incl. top level; a value of the wrong kind (string<-list/map, int<-non-numeric string/bool/list/map/fraction/out-of-range, bool<-other string/number/list/map, list<-string/number/map/nested, map<-string/number/list/nested); an attribute written as a block or a block as an attribute; a block label missing or in excess. Oracle: SetProfile returns a non-nil error that is an hcl.Diagnostics, every error diagnostic has a summary, at least one has a subject range in the profile file whose lines meet the faulty item (dropped attribute: the enclosing block; duplicated block: either copy) and - for missing/unknown/duplicate/misplaced names - mentions the name; no panic. Every case is non-trivial; distinct = (fault kind, detail, nesting depth). Further fault kinds: an attribute that is present gets a name its body does not define (misspelt-attr: case variant, doubled or lost letter, plural; the diagnostics on its lines have to mention the new name), an attribute written twice in one body with the same or another value (dup-attr; either copy is the place). Layout of the faulty place: after the fault is put in, a block that holds exactly one item or none may be written on one line - `Demon { Sleeep = 2 }`, `user \"x\" { Passwd = \"y\" }`, `Demon { Foo = 1 }` (unknown attribute added to an empty block), `WebHook { Discord = \"x\" }` (block as attribute), `Service {}` (required attribute dropped), `Demon { Sleep = \"abc\" }`, `Demon { Foo {} }` (unknown block / attribute as block inside a single-line block); unknown attributes and blocks go with probability 1/2 into a block without items when there is one, and the attribute faults pick with probability 1/2 an attribute that is alone in its block. Labels fault-in-one-line-block[:kind] (the body holding the fault is in the single-line form), fault-on-one-line-block (the faulty block itself is), layout:<one-line classes of the printer>; such cases have the distinct key (fault kind, detail, layout) and the signature suffix |in-one-line / |on-one-line",
+		Rule: "a valid generated profile (as in sub-check a, any spelling) with exactly one fault: a required attribute dropped; a block the schema allows once written twice (full or empty copy, before/after/at the end); an attribute or block the enclosing body does not define (foreign names, case variants of defined ones) added to any body incl. top level; a value of the wrong kind (string<-list/map, int<-non-numeric string/bool/list/map/fraction/out-of-range, bool<-other string/number/list/map, list<-string/number/map/nested, map<-string/number/list/nested); an attribute written as a block or a block as an attribute; a block label missing or in excess. Oracle: SetProfile returns a non-nil error that is an hcl.Diagnostics, every error diagnostic has a summary, at least one has a subject range in the profile file whose lines meet the faulty item (dropped attribute: the enclosing block; duplicated block: either copy) and - for missing/unknown/duplicate/misplaced names - mentions the name; no panic. Every case is non-trivial; distinct = (fault kind, detail, nesting depth). Further fault kinds: an attribute that is present gets a name its body does not define (misspelt-attr: case variant, doubled or lost letter, plural; the diagnostics on its lines have to mention the new name), an attribute written twice in one body with the same or another value (dup-attr; either copy is the place). Layout of the faulty place: after the fault is put in, a block that holds exactly one item or none may be written on one line - `Demon { Sleeep = 2 }`, `user \"x\" { Passwd = \"y\" }`, `Demon { Foo = 1 }` (unknown attribute added to an empty block), `WebHook { Discord = \"x\" }` (block as attribute), `Service {}` (required attribute dropped), `Demon { Sleep = \"abc\" }`, `Demon { Foo {} }` (unknown block / attribute as block inside a single-line block); unknown attributes and blocks go with probability 1/2 into a block without items when there is one, and the attribute faults pick with probability 1/2 an attribute that is alone in its block. Labels fault-in-one-line-block[:kind] (the body holding the fault is in the single-line form), fault-on-one-line-block (the faulty block itself is), layout:<one-line classes of the printer>; such cases have the distinct key (fault kind, detail, layout) and the signature suffix |in-one-line / |on-one-line. Delivery dimension as in sub-check a (labels via:symlink / via:named-pipe / via:pipe-as-/proc/self/fd/N, via-pipe-writes:*; about 1 case in 4): the faulty profile reaches the loader through a symbolic link, a named pipe or /proc/self/fd/N of a pipe, written in one piece or in small pieces; the same error with the same place is demanded (the file name of the subject range is the path that was given); signature suffix |via=<kind>",
 		Gen:  genC, Check: checkC, Classify: classifyC,
 		Assumptions: []string{
 			"'names the problem and its place' is read as: some error diagnostic of the returned hcl.Diagnostics has a non-empty summary and a subject range on the lines of the faulty item; for a dropped attribute the place is the enclosing block",
